@@ -52,6 +52,9 @@ func WithSentinel(c Case) []gen.SrcCmd {
 	out := append([]gen.SrcCmd{}, c.Cmds...)
 	out = append(out, gen.SrcCmd{Name: "SELECT", Args: []pbt.B{[]byte(strconv.Itoa(db))}})
 	out = append(out, gen.SrcCmd{Name: "SET", Args: []pbt.B{SentinelKey, []byte("1")}})
+	// a database switch behind the sentinel makes the tool flush the batch that holds it at once (a SELECT is a
+	// barrier in both checkpoint modes) instead of waiting for the batch / keep-alive ticker
+	out = append(out, gen.SrcCmd{Name: "SELECT", Args: []pbt.B{[]byte(strconv.Itoa((db + 1) % 16))}})
 	return out
 }
 
@@ -194,7 +197,8 @@ func ExecuteOpts(c Case, faults []Fault, o Opts) *Trace {
 			tr.Runs = append(tr.Runs, run)
 			return tr
 		}
-		if from == model.Ends[len(model.Ends)-1] {
+		if from >= model.Ends[len(model.Ends)-2] {
+			// (the last command is the SELECT behind the sentinel: a position at or behind the sentinel's end leaves no write to replay)
 			// the stored position is the end of the stream: nothing is left to replay
 			run.NothingLeft = true
 			if o.IdleRunMs > 0 {
@@ -301,4 +305,20 @@ func IsBoundary(m *gen.Model, off int64) bool {
 		}
 	}
 	return false
+}
+
+// IdleWindow finds the idle gap (> minGapMs between two consecutive requests) in the Send phase of a run and returns the
+// fault indexes (1-based request counts within Send) of the `width` requests that follow it; nil when there is no such gap.
+func IdleWindow(run *Run, minGapMs int64, width int) []int {
+	reqs := run.Reqs[len(run.Reqs)-run.SendReqs:]
+	for i := 1; i < len(reqs); i++ {
+		if (reqs[i].T-reqs[i-1].T)/1e6 >= minGapMs {
+			var out []int
+			for k := i; k <= i+width && k <= len(reqs); k++ {
+				out = append(out, k)
+			}
+			return out
+		}
+	}
+	return nil
 }
